@@ -3,6 +3,7 @@ mod checks_e1;
 mod checks_e2;
 mod e1;
 mod e2;
+mod e6;
 mod gen;
 mod model;
 mod par;
@@ -43,6 +44,7 @@ fn main() {
                 "C07" => checks_e1::run("C07", &tier, seed),
                 "C08" => checks_e1::run("C08", &tier, seed),
                 "C09" => checks_e1::run("C09", &tier, seed),
+                "C12" => e6::run(&tier, seed),
                 "C02" => checks_e2::run("C02", &tier, seed),
                 "C03" => checks_e2::run("C03", &tier, seed),
                 "C11" => checks_e2::run("C11", &tier, seed),
